@@ -111,9 +111,13 @@ def run(prog, ctx):
     tmu = Terms(upd.node)
     for s in R.attribute_stores(upd.node):
         if isinstance(s.base, ast.Name) and s.base.id == up and s.value is not None and s.attr in changed:
-            t = tmu.term(s.value)
+            t = R.resolve_locals(upd, Terms(upd.node, max_depth=0).term(s.value), cfg_of(upd).node_of(s.stmt), Terms(upd.node, max_depth=0))
             srcattr = ("a", ("n", upd.self_name), s.attr)
-            good = _strip_array(t) == srcattr or (t[0] == "call" and t[1] == ("a", srcattr, "copy"))
+
+            def same(t_):
+                return _strip_array(t_) == srcattr or (t_[0] == "call" and t_[1] == ("a", srcattr, "copy"))
+            # `X.copy() if c else X`: both arms have to be the attribute of the same name
+            good = same(t) or (t[0] == "ifexp" and same(t[2]) and same(t[3]))
             ctx.check(good, "C18.D2", "%s._update_internal::copies-same:%s" % (DS, s.attr), upd.loc(s.stmt),
                       "copied from the attribute of the same name",
                       "`%s` does not copy self.%s" % (src(s.stmt), s.attr))
@@ -436,6 +440,7 @@ def check_bookkeeping(prog, ctx, ds):
                 return None if v is None else (v == (t[3] == ("c", "True")))
             return None
         reach = {}
+        blocked_of = {}
         for sigma in ((False, True), (True, True), (True, False), (False, False)):
             blocked = set()
             for n in c.nodes:
@@ -447,6 +452,7 @@ def check_bookkeeping(prog, ctx, ds):
                             if l is (not v):
                                 blocked.add((n.idx, sx.idx, l))
             reach[sigma] = c.reachable(blocked_edges=blocked)
+            blocked_of[sigma] = blocked
         if not atoms_seen:
             raise AnalysisError("C18.D5: %s no longer branches on self._scaled / %s" % (fi.qual, ov))
 
@@ -464,11 +470,16 @@ def check_bookkeeping(prog, ctx, ds):
             n = c.node_of(s_.stmt)
             b = branch_of(n)
             if b is None:
-                continue
-            if s_.attr == "_data":
-                data_nodes[b].append(n)
+                # executed for the first / overriding scaling AND for a composing one (code shared by both, outside the branches)
+                both = n is not None and n.idx in reach[(False, True)] and any(n.idx in reach[sg] for sg in ((True, True), (True, False), (False, False)))
+                bl = ["override", "compose"] if both else []
             else:
-                stores[b].setdefault(s_.attr, []).append((s_, n))
+                bl = [b]
+            for b in bl:
+                if s_.attr == "_data":
+                    data_nodes[b].append(n)
+                else:
+                    stores[b].setdefault(s_.attr, []).append((s_, n))
         # override branch: records the original extrema before the data is transformed (scale_range takes them from the fitted scaler)
         ovs = stores["override"]
         need = {"_scaled", "_scaling_range", "_scaling_factor", "_original_min", "_original_max"}
@@ -484,7 +495,17 @@ def check_bookkeeping(prog, ctx, ds):
                     if from_data:
                         if t[1][2] != want[0]:
                             ok, why = False, "%s is taken from %s" % (a, t[1][2])
-                        if not all(c.dominates(n, dn) and n is not dn for dn in data_nodes["override"]):
+                        # on every path of a first / overriding scaling the extremum is recorded before the samples are replaced
+                        def before_data(n_, dn_):
+                            if n_ is dn_:
+                                return False
+                            if c.dominates(n_, dn_):
+                                return True
+                            for sg in ((True, True), (True, False), (False, False)):
+                                if dn_.idx in reach[sg] and dn_.idx in c.reachable(blocked=[n_], blocked_edges=blocked_of[sg]):
+                                    return False
+                            return True
+                        if not all(before_data(n, dn) for dn in data_nodes["override"]):
                             ok, why = False, "%s is read from the samples after they were already transformed" % a
                     elif from_scaler:
                         if t[2] != want[1]:
